@@ -20,6 +20,16 @@ CLAIMS = {
          'temporal guarantees over virtual time outside; Duration/Instant as integers in E2', '2/C13'),
  'C15': ('E1+E2', 'compiled codec returned by network_message_frame_codec: refuse iff size > max for every usize limit and every 4-byte declared length, exact boundary on both sides for bodies <= 8/16 bytes, None = unlimited; both stream ends built from the own config; senders add no off-by-one refusal',
          'QUIC keeps the connection up after a refused message (outside); multi-MiB bodies only by native replay', '2/C15 and 5'),
+ 'C03': ('E2', 'pinned verifier accepts only presented == expected (all id pairs) and only with the delegate\'s Ok; the requested identity reaches the verifier of THIS dial; all six handshake-signature verifiers delegate to rustls with Ed25519-only tables; dial success only after connect + listener ack; registration precedes the reply; handshake step order',
+         'rustls/webpki/ring/x509-parser and quinn trusted: that TLS fails for an impostor is the cryptographic base, not decided here', '2/C03'),
+ 'C16': ('E2', 'dispatch table of Router::call for every matcher outcome (one dispatch, fallback on every error, no panic), route/merge bookkeeping, route_layer scope, RPC prefix string (z3 seq)',
+         'matchit (what matches, panic-freedom) trusted - out of reach under CBMC', '2/C16'),
+ 'C17': ('E2', 'generator route strings for ALL package/service/route names (z3 sequence theory over the generator MIR), the actually generated example program (regenerated from the current generator), Status<->Response conversion effects, typed call outcome tables',
+         'quote/syn token plumbing and serde codecs trusted; generated code beyond the path strings checked on one program', '2/C17'),
+ 'C18': ('E2', 'per-call permit discipline of the limiter future for every poll outcome and both wait modes: key, capacity, acquire-before-call, release exactly once after completion, refusal without call, no other state mutation; table sharing of the layer',
+         'tokio Semaphore and DashMap contracts; interleavings follow from them (not explored)', '2/C18'),
+ 'C20': ('E2', 'call();poll() composition of the authorization service for both verdicts (invocation iff accepted, refusal yields exactly the authorizer response), allow-list exactness for a symbolic 2-element list and any sender',
+         'finite-set model of HashSet; Request::peer_id is the authenticated sender (C01)', '2/C20'),
 }
 NA = {
  'C08': 'shutdown/teardown is behaviour of the tokio runtime, quinn endpoint driver and OS over time; not a function of inputs a solver can be given, objects not constructible under Kani nor abstractable without assuming the property (DESIGN.md 4)',
